@@ -23,6 +23,7 @@ type CaseC16 struct {
 	Shuffle []int                  `json:"shuffle"` // drives insertion order and capacities of the rebuilt copies
 	Prefix  string                 `json:"prefix"`
 	Ind     string                 `json:"ind"`
+	GoEmpty bool                   `json:"go_empty,omitempty"`
 }
 
 func init() { register("C16", checkC16) }
@@ -58,6 +59,7 @@ func genC16(t *rapid.T) CaseC16 {
 	blanks := []string{"", " ", "  ", "\t"}
 	c.Prefix = rapid.SampledFrom(blanks).Draw(t, "prefix")
 	c.Ind = rapid.SampledFrom(blanks).Draw(t, "ind")
+	c.GoEmpty = rapid.IntRange(0, 3).Draw(t, "goempty") == 0
 	return c
 }
 
@@ -185,6 +187,9 @@ func maxFan(v interface{}) (children, attrs int) {
 func checkC16(c CaseC16, info *Info) *Failure {
 	defer resetOptions()
 	mxj.XMLEscapeChars(true)
+	if c.GoEmpty {
+		mxj.XmlGoEmptyElemSyntax()
+	}
 	info.Class("src:" + c.Src)
 	s := &intStream{v: c.Shuffle}
 	scratch := os.Getenv("VERIF_SCRATCH")
